@@ -3,9 +3,9 @@ from __future__ import annotations
 
 import ast
 
-from engine.defuse import value_sources
+from engine.defuse import reaching_defs, value_sources
 from engine.effects import EventSpec
-from engine.flow import dominating_guards, expand_aliases, must_pass, path_avoiding, reachable_from_entry
+from engine.flow import same_name_value, dominating_guards, expand_aliases, must_pass, path_avoiding, reachable_from_entry
 from .common import CALLS, call_events
 
 META = {
@@ -152,6 +152,20 @@ def check(ctx):
             ctx.ob("env.default-only-without-variable", sd, n.ast, okd, "the default replaces the value only while it is still None" if okd else
                    "the declared default overwrites a value taken from the environment", node=n)
 
+    for x in ast.walk(sd.node):
+        if isinstance(x, ast.BoolOp) and isinstance(x.op, ast.Or) and any(isinstance(v, ast.Attribute) and v.attr == "default" for v in x.values[1:]):
+            at = None
+            y = x
+            while y is not None and not g.nodes_for(y):
+                y = getattr(y, "_parent", None)
+            at = g.nodes_for(y)[0] if y is not None and g.nodes_for(y) else None
+            validated_first = any(
+                k == "expr" and isinstance(pl, ast.Call) and isinstance(pl.func, ast.Attribute) and pl.func.attr == "validate"
+                for v in x.values[:-1] for k, pl in value_sources(sd, v, at))
+            ctx.ob("env.default-only-without-variable", sd, x, not validated_first,
+                   "`or self.default` is applied to something that is never a validated variable value" if not validated_first else
+                   "`<validated value> or self.default`: a variable whose validated value is falsy (0, 0.0, False, '') is replaced by the declared default",
+                   node=at)
     # ---------------------------------------------------------------- C14.3 assignment route
     acalls = an.summary(ASSIGN_CALLS)
     roots = []
@@ -201,68 +215,40 @@ def check(ctx):
                % (f.qualname, " -> ".join("%s@%s" % (x.kind, x.lineno) for x in p[:8])))
 
     # ---------------------------------------------------------------- C14.5 names
-    sk = model.method("Field", "__setkey__")
-    g = an.cfg(sk)
-    derived = [n for n in g.nodes if n.kind == "assign" and isinstance(n.ast, ast.Assign) and any(isinstance(t, ast.Attribute) and t.attr == "env" for t in n.ast.targets)]
-    ctx.need(bool(derived), "Field.__setkey__ no longer derives the variable name")
-    def name_shape(fn):
-        """(key upper-cased, prefix case untouched, '_' joiner present)"""
-        key_upper = False
-        prefix_recased = None
-        for x in ast.walk(fn.node):
-            if isinstance(x, ast.Call) and isinstance(x.func, ast.Attribute) and x.func.attr in ("upper", "lower", "casefold", "title", "capitalize", "swapcase"):
-                recv = x.func.value
-                if x.func.attr == "upper" and isinstance(recv, ast.Attribute) and recv.attr == "_key":
-                    key_upper = True
-                    continue
-                # anything else that is re-cased: does it contain the inherited prefix?
-                names = set()
-                for y in ast.walk(recv):
-                    if isinstance(y, ast.Attribute) and y.attr == "_env_prefix":
-                        names.add("_env_prefix")
-                    if isinstance(y, ast.Name):
-                        for k, pl in value_sources(fn, y, None):
-                            if k == "expr" and isinstance(pl, ast.AST) and any(isinstance(z, ast.Attribute) and z.attr == "_env_prefix" for z in ast.walk(pl)):
-                                names.add(y.id)
-                        # comprehension variables iterating over a tuple/list that holds the prefix
-                        par = getattr(y, "_parent", None)
-                        while par is not None and not isinstance(par, (ast.FunctionDef,)):
-                            if isinstance(par, (ast.GeneratorExp, ast.ListComp)):
-                                if any(isinstance(z, ast.Attribute) and z.attr == "_env_prefix" for g2 in par.generators for z in ast.walk(g2.iter)) or \
-                                        any(isinstance(z, ast.Name) and any(k2 == "expr" and isinstance(p2, ast.AST) and any(
-                                            isinstance(w, ast.Attribute) and w.attr == "_env_prefix" for w in ast.walk(p2))
-                                            for k2, p2 in value_sources(fn, z, None)) for g2 in par.generators for z in ast.walk(g2.iter)):
-                                    names.add("<comprehension over prefix>")
-                            par = getattr(par, "_parent", None)
-                if names:
-                    prefix_recased = ast.unparse(x)[:60]
-        joiner = any(isinstance(x, ast.Constant) and x.value == "_" for x in ast.walk(fn.node))
-        return key_upper, prefix_recased, joiner
+    from .envnames import check_names
+    check_names(ctx, an, model)
 
-    ku, pr, jn = name_shape(sk)
-    for n in derived:
-        ctx.ob("name.shape", sk, n.ast, ku and pr is None, "variable = prefix (as given) + KEY.upper()" if ku and pr is None else
-               ("the inherited prefix is re-cased (%s): a prefix given in lower case no longer names the variable" % pr if pr else
-                "the key part of the derived variable name is not upper-cased"), node=n)
-        # opt-out dominates
-        dg = dominating_guards(an, sk, n)
-        opt = any((not tr) and isinstance(t.ast, ast.Compare) and isinstance(t.ast.ops[0], ast.Is) and isinstance(t.ast.comparators[0], ast.Constant)
-                  and t.ast.comparators[0].value is False and "env" in ast.unparse(t.ast.left) for t, tr in dg)
-        ctx.ob("name.opt-out", sk, n.ast, opt, "env=False returns before any name is derived" if opt else
-               "a field that opted out (env=False) can still get a variable name", node=n)
-    ctx.ob("name.joiner", sk, "prefix + '_'", jn, "prefix and key are joined by '_'" if jn else "the prefix joiner is no longer '_'")
-    ssk = model.method("Schema", "__setkey__")
-    ku, pr, jn = name_shape(ssk)
-    ctx.ob("name.nested-prefix", ssk, "nested prefix = parent (as given) + '_' + KEY.upper()", ku and jn and pr is None,
-           "nested schemas extend the prefix the same way" if ku and jn and pr is None else
-           ("the inherited prefix is re-cased (%s): variables below a lower-case named prefix are no longer found" % pr if pr else
-            "nested schema prefixes are not parent + '_' + upper-cased key"))
-    g = an.cfg(ssk)
-    for n in g.nodes:
-        if n.kind == "assign" and isinstance(n.ast, ast.Assign) and any(isinstance(t, ast.Attribute) and t.attr == "_env_prefix" for t in n.ast.targets):
-            dg = dominating_guards(an, ssk, n)
-            opt = any((not tr) and isinstance(t.ast, ast.Compare) and isinstance(t.ast.comparators[0], ast.Constant) and t.ast.comparators[0].value is False for t, tr in dg)
-            inh = any(tr and isinstance(t.ast, ast.Compare) and isinstance(t.ast.ops[0], ast.Is) and isinstance(t.ast.comparators[0], ast.Constant)
-                      and t.ast.comparators[0].value is None for t, tr in dg)
-            ctx.ob("name.nested-opt-out", ssk, n.ast, opt and inh, "a nested schema inherits only when its own setting is None and not False" if opt and inh else
-                   "a nested schema's own env setting (False / explicit prefix) can be overwritten by inheritance", node=n)
+    # ---------------------------------------------------------------- C14.5b every field that enters a field table is told its key
+    # (__setkey__ is where the variable name / nested prefix is derived: a field stored without it never gets one)
+    from .common import container_mutations
+    nreg = 0
+    for fn in an.fns():
+        g = an.cfg(fn)
+        for node in g.nodes:
+            for owner, op, key, val in container_mutations(an, fn, node, "_fields"):
+                if op != "setitem" or val is None:
+                    continue
+                nreg += 1
+                told = [m for m in g.nodes if m.kind == "call" and isinstance(m.ast.func, ast.Attribute) and m.ast.func.attr == "__setkey__"
+                        and isinstance(m.ast.func.value, ast.Name)]
+
+                def same_field(m):
+                    recv = m.ast.func.value
+                    if isinstance(val, ast.Name) and same_name_value(fn, recv, m, val, node):
+                        return True
+                    # chained assignment: f = table[key] = Ctor()
+                    st = node.ast
+                    if isinstance(st, ast.Assign):
+                        for t in st.targets:
+                            if isinstance(t, ast.Name) and t.id == recv.id and any(d.node is node for d in reaching_defs(fn).reaching(m, recv.id)):
+                                return True
+                    return False
+                mine = {m for m in told if same_field(m)}
+                p = g.path(node, lambda x: x is g.exit, may_raise=lambda x: False, stop=lambda x: x in mine, from_successors=True)
+                before = bool(mine) and must_pass(an, fn, node, lambda x: x in mine) is None
+                ok = bool(mine) and (p is None or before)
+                ctx.ob("name.setkey-on-registration", fn, node.ast, ok,
+                       "the field stored in the table is given its key (and derives its variable name) through __setkey__" if ok else
+                       "%s puts a field into a field table without calling its __setkey__: it never derives a variable name / inherits the prefix" % fn.qualname,
+                       node=node)
+    ctx.need(nreg >= 2, "fewer than 2 stores into a field table found: vanished anchors")
